@@ -16,13 +16,12 @@ use crate::Blob;
 use crate::Text;
 use either::Either;
 use num_bigint::{BigInt, BigUint, ToBigInt};
-use num_traits::Signed;
+use num_traits::FromPrimitive;
 use num_traits::ToPrimitive;
 use std::cmp::Ordering;
 use std::convert::TryFrom;
 use std::fmt::{Display, Formatter};
 use std::hash::{Hash, Hasher};
-use std::str::FromStr;
 
 use crate::literal::write_string_literal;
 use crate::{num, Attr, Item};
@@ -309,17 +308,7 @@ impl Value {
                 Value::Int64Value(m) => n.cmp(m),
                 Value::UInt32Value(x) => num::cmp_i64_u64(*n, *x as u64),
                 Value::UInt64Value(x) => num::cmp_i64_u64(*n, *x),
-                Value::Float64Value(y) => {
-                    if y.is_nan() {
-                        Ordering::Greater
-                    } else {
-                        match PartialOrd::partial_cmp(&(*n as f64), y) {
-                            Some(Ordering::Less) => Ordering::Less,
-                            Some(Ordering::Greater) => Ordering::Greater,
-                            _ => Ordering::Equal,
-                        }
-                    }
-                }
+                Value::Float64Value(y) => cmp_bigint_f64(&BigInt::from(*n), *y),
                 Value::BigInt(bi) => BigInt::from(*n).cmp(bi),
                 Value::BigUint(bi) => match BigUint::try_from(*n) {
                     Ok(n) => n.cmp(bi),
@@ -354,107 +343,19 @@ impl Value {
                 Value::Int64Value(m) => num::cmp_u64_i64(*n, *m),
                 Value::UInt32Value(x) => n.cmp(&(*x as u64)),
                 Value::UInt64Value(x) => n.cmp(x),
-                Value::Float64Value(y) => {
-                    if y.is_nan() {
-                        Ordering::Greater
-                    } else {
-                        match PartialOrd::partial_cmp(&(*n as f64), y) {
-                            Some(Ordering::Less) => Ordering::Less,
-                            Some(Ordering::Greater) => Ordering::Greater,
-                            _ => Ordering::Equal,
-                        }
-                    }
-                }
+                Value::Float64Value(y) => cmp_bigint_f64(&BigInt::from(*n), *y),
                 Value::BigInt(bi) => BigInt::from(*n).cmp(bi),
                 Value::BigUint(bi) => BigUint::from(*n).cmp(bi),
                 _ => Ordering::Greater,
             },
             Value::Float64Value(x) => match other {
-                Value::BigInt(bi) => {
-                    if x.is_nan() {
-                        Ordering::Less
-                    } else {
-                        match bi.to_f64() {
-                            Some(bi) => match x.partial_cmp(&bi) {
-                                Some(Ordering::Less) => Ordering::Less,
-                                Some(Ordering::Greater) => Ordering::Greater,
-                                _ => Ordering::Equal,
-                            },
-                            None => {
-                                if x.is_sign_negative() && bi.is_negative() {
-                                    Ordering::Less
-                                } else {
-                                    Ordering::Greater
-                                }
-                            }
-                        }
-                    }
-                }
-                Value::BigUint(bi) => {
-                    if x.is_nan() {
-                        Ordering::Less
-                    } else {
-                        match f64::from_str(&bi.to_string()) {
-                            Ok(bi) => match x.partial_cmp(&bi) {
-                                Some(Ordering::Less) => Ordering::Less,
-                                Some(Ordering::Greater) => Ordering::Greater,
-                                _ => Ordering::Equal,
-                            },
-                            Err(_) => {
-                                if x.is_sign_negative() {
-                                    Ordering::Greater
-                                } else {
-                                    Ordering::Less
-                                }
-                            }
-                        }
-                    }
-                }
+                Value::BigInt(bi) => cmp_bigint_f64(bi, *x).reverse(),
+                Value::BigUint(bi) => cmp_bigint_f64(&BigInt::from(bi.clone()), *x).reverse(),
                 Value::Extant | Value::BooleanValue(_) => Ordering::Less,
-                Value::Int32Value(m) => {
-                    if x.is_nan() {
-                        Ordering::Less
-                    } else {
-                        match PartialOrd::partial_cmp(x, &(*m as f64)) {
-                            Some(Ordering::Less) => Ordering::Less,
-                            Some(Ordering::Greater) => Ordering::Greater,
-                            _ => Ordering::Equal,
-                        }
-                    }
-                }
-                Value::Int64Value(m) => {
-                    if x.is_nan() {
-                        Ordering::Less
-                    } else {
-                        match PartialOrd::partial_cmp(x, &(*m as f64)) {
-                            Some(Ordering::Less) => Ordering::Less,
-                            Some(Ordering::Greater) => Ordering::Greater,
-                            _ => Ordering::Equal,
-                        }
-                    }
-                }
-                Value::UInt32Value(m) => {
-                    if x.is_nan() {
-                        Ordering::Less
-                    } else {
-                        match PartialOrd::partial_cmp(x, &(*m as f64)) {
-                            Some(Ordering::Less) => Ordering::Less,
-                            Some(Ordering::Greater) => Ordering::Greater,
-                            _ => Ordering::Equal,
-                        }
-                    }
-                }
-                Value::UInt64Value(m) => {
-                    if x.is_nan() {
-                        Ordering::Less
-                    } else {
-                        match PartialOrd::partial_cmp(x, &(*m as f64)) {
-                            Some(Ordering::Less) => Ordering::Less,
-                            Some(Ordering::Greater) => Ordering::Greater,
-                            _ => Ordering::Equal,
-                        }
-                    }
-                }
+                Value::Int32Value(m) => cmp_bigint_f64(&BigInt::from(*m), *x).reverse(),
+                Value::Int64Value(m) => cmp_bigint_f64(&BigInt::from(*m), *x).reverse(),
+                Value::UInt32Value(m) => cmp_bigint_f64(&BigInt::from(*m), *x).reverse(),
+                Value::UInt64Value(m) => cmp_bigint_f64(&BigInt::from(*m), *x).reverse(),
                 Value::Float64Value(y) => {
                     if x.is_nan() {
                         if y.is_nan() {
@@ -464,12 +365,12 @@ impl Value {
                         }
                     } else if y.is_nan() {
                         Ordering::Greater
-                    } else if (*x - *y).abs() < f64::EPSILON {
-                        Ordering::Equal
                     } else if *x < *y {
                         Ordering::Less
-                    } else {
+                    } else if *x > *y {
                         Ordering::Greater
+                    } else {
+                        Ordering::Equal
                     }
                 }
                 _ => Ordering::Greater,
@@ -480,7 +381,7 @@ impl Value {
                 _ => Ordering::Greater,
             },
             Value::Text(s) => match other {
-                Value::Record(_, _) => Ordering::Greater,
+                Value::Record(_, _) | Value::Data(_) => Ordering::Greater,
                 Value::Text(t) => s.cmp(t),
                 _ => Ordering::Less,
             },
@@ -496,6 +397,7 @@ impl Value {
                         .chain(items2.iter().map(Either::Right));
                     first.cmp(second)
                 }
+                Value::Data(_) => Ordering::Greater,
                 _ => Ordering::Less,
             },
             Value::BigInt(bi) => match other {
@@ -504,7 +406,7 @@ impl Value {
                 Value::Int64Value(m) => bi.cmp(&BigInt::from(*m)),
                 Value::UInt32Value(m) => bi.cmp(&BigInt::from(*m)),
                 Value::UInt64Value(m) => bi.cmp(&BigInt::from(*m)),
-                Value::Float64Value(y) => bi.cmp(&BigInt::from(*y as i64)),
+                Value::Float64Value(y) => cmp_bigint_f64(bi, *y),
                 Value::BigInt(other_bi) => bi.cmp(other_bi),
                 Value::BigUint(other_bi) => match other_bi.to_bigint() {
                     Some(other_bi) => bi.cmp(&other_bi),
@@ -524,10 +426,7 @@ impl Value {
                 },
                 Value::UInt32Value(u) => bi.cmp(&BigUint::from(*u)),
                 Value::UInt64Value(u) => bi.cmp(&BigUint::from(*u)),
-                Value::Float64Value(m) => match u64::try_from(*m as i64) {
-                    Ok(m) => bi.cmp(&BigUint::from(m)),
-                    Err(_) => Ordering::Greater,
-                },
+                Value::Float64Value(m) => cmp_bigint_f64(&BigInt::from(bi.clone()), *m),
                 Value::BigInt(other_bi) => match other_bi.to_biguint() {
                     Some(other_bi) => bi.cmp(&other_bi),
                     None => Ordering::Greater,
@@ -562,6 +461,36 @@ impl Value {
                 Value::Record(attrs, items)
             }
             ow => Value::Record(vec![attr], vec![Item::ValueItem(ow)]),
+        }
+    }
+}
+
+/// The exact ordering of an integer relative to a floating point number (NaN sorts below all
+/// numbers). The result is `Equal` only if the two denote the same number.
+fn cmp_bigint_f64(n: &BigInt, y: f64) -> Ordering {
+    if y.is_nan() {
+        Ordering::Greater
+    } else if y == f64::INFINITY {
+        Ordering::Less
+    } else if y == f64::NEG_INFINITY {
+        Ordering::Greater
+    } else {
+        let truncated = y.trunc();
+        match BigInt::from_f64(truncated) {
+            Some(t) => match n.cmp(&t) {
+                Ordering::Equal => {
+                    if y > truncated {
+                        Ordering::Less
+                    } else if y < truncated {
+                        Ordering::Greater
+                    } else {
+                        Ordering::Equal
+                    }
+                }
+                ord => ord,
+            },
+            // Not reachable for a finite number.
+            None => Ordering::Equal,
         }
     }
 }
